@@ -19,8 +19,11 @@ class Disp(object):
         self.class_states = {d.__class__: engine.class_state(d.__class__) for d in self.decs}
         self.defaults = [(d._enabled, d._tolerance, d._frequency_tolerance) for d in self.decs]
         self.log = None
+        self.cur_data = None
+        self.saved_seen = None
         for i, d in enumerate(self.decs):
             self._wrap(i, d)
+        self._wrap_iter()
         # every instance attribute as it is right after import: reset() puts them back, so that leftovers of multi-part
         # decoders (Denon, Blaupunkt, ...) do not leak from one recorded sequence into the next
         self.inst_states = [self._snapshot(d) for d in self.decs]
@@ -62,6 +65,36 @@ class Disp(object):
                 harness.log.append((_i, ('code', harness.code_id(c))))
             return c
         d.decode = wrapper
+
+    def _wrap_iter(self):
+        """`for code in decoder` of the dispatcher's scan: what the stored codes of that decoder answer is recorded at the moment the
+        scan asks (an earlier decode attempt of the same call may have changed them), for the `saved` argument of the model"""
+        from pyIRDecoder import protocol_base
+        harness = self
+        if getattr(protocol_base.IrProtocolBase.__iter__, '_verif_wrapped', False):
+            protocol_base.IrProtocolBase.__iter__._verif_harness[0] = self
+            return
+        orig = protocol_base.IrProtocolBase.__iter__
+        cell = [self]
+
+        def it(dec):
+            h = cell[0]
+            if h.saved_seen is not None and h.cur_data is not None and dec in h.decs:
+                i = h.decs.index(dec)
+                if i not in h.saved_seen:
+                    h.saved_seen[i] = None
+                    for code in list(dec._saved_codes):
+                        try:
+                            eq = bool(code == h.cur_data)
+                        except Exception:  # noqa
+                            eq = False
+                        if eq:
+                            h.saved_seen[i] = h.code_id(code)
+                            break
+            return orig(dec)
+        it._verif_wrapped = True
+        it._verif_harness = cell
+        protocol_base.IrProtocolBase.__iter__ = it
 
     def code_key(self, c):
         try:
@@ -136,8 +169,9 @@ class Disp(object):
         pre = self.state()
         hm = self.held_match(list(data))
         cfg = self.cfg()
-        saved = self.saved_matches(list(data))
         self.log = []
+        self.cur_data = list(data)
+        self.saved_seen = {}
         try:
             r = self.mod._decode(list(data), freq)
             if r is None or r is True:
@@ -149,6 +183,9 @@ class Disp(object):
             r = None
         log = self.log
         self.log = None
+        saved = sorted((i, c) for i, c in self.saved_seen.items() if c is not None)
+        self.saved_seen = None
+        self.cur_data = None
         post = self.state()
         vlib.drain_workers()
         return dict(cfg=cfg, freq=freq, hm=hm, pre=pre, log=log, result=res, post=post, obj=r, saved=saved)
